@@ -881,6 +881,16 @@ def explore(harness, cfg, caps, hname="?"):
                                 "%s: %s" % (type(uncaught).__name__, str(uncaught)[:300]),
                                 md, tb[-1200:])
 
+    if cand is not None and cand.clause == "termination":
+      # the symbolic run of this path exceeded the per-path cap: a violation only if the native run hangs as well
+      rep = run_concrete(harness, cfg, cand.model, caps) if cand.model is not None else {"status": "nomodel"}
+      if rep["status"] == "failed" and rep.get("clause") == "termination":
+        stats.violations.append({"harness": hname, "cfg": _jsonable(cfg), "clause": "termination", "sym_clause": "termination",
+                                 "detail": rep.get("detail"), "what": "watchdog", "model": _jsonable(cand.model), "trace": None})
+      else:
+        stats.inconclusive.append({"clause": "engine", "why": "symbolic path exceeded the per-path cap of %s s (native run: %s)"
+                                                        % (caps.get("path_s", 90), rep["status"]), "path": ctx.describe_path(4)})
+      cand = None
     if cand is not None:
       if cand.model is None:
         if ctx.maybe_infeasible:
